@@ -3,6 +3,9 @@
 //!   fidelity <n>                 real derived family n vs its Dyn twin (must print fidelity=ok)
 //!   ser <type> <value>           the 7 encoding routes + round trip of each result          (C07)
 //!   consts                       the reserved names of the in-band tunnels                  (C07)
+//!   spanned <type> <doc>         a type with Spanned<..> wrappers against its erasure, with the
+//!                                document's own span tree                                   (C14, serde half)
+//!   spanned_fidelity <doc>       real `Spanned<T>` fields against their dynserde twin        (C14, serde half)
 //!   routes <type> <doc> <val>    every decoding route on a document / single-value text    (C13)
 //!   routes_ser <type> <value>    the same on the text obtained by serializing the value    (C13)
 //!   tryfrom <type> <value>       Value/Table::try_from vs parse(to_string)                 (C13)
@@ -510,11 +513,230 @@ fn cmd_display(args: &Args) -> String {
     out.join(" ")
 }
 
+// ---- C14, serde half -------------------------------------------------------------------------
+/// the type without its Spanned wrappers
+fn erase_ty(t: &DynType) -> DynType {
+    let fields = |f: &Fields| Fields { names: f.names, tys: f.tys.iter().map(erase_ty).collect() };
+    match t {
+        DynType::Spanned(x) => erase_ty(x),
+        DynType::Opt(x) => DynType::Opt(Box::new(erase_ty(x))),
+        DynType::Seq(x) => DynType::Seq(Box::new(erase_ty(x))),
+        DynType::Tuple(xs) => DynType::Tuple(xs.iter().map(erase_ty).collect()),
+        DynType::Map(k, v) => DynType::Map(Box::new(erase_ty(k)), Box::new(erase_ty(v))),
+        DynType::Struct(n, f) => DynType::Struct(n, fields(f)),
+        DynType::Newtype(n, x) => DynType::Newtype(n, Box::new(erase_ty(x))),
+        DynType::TupleStruct(n, xs) => DynType::TupleStruct(n, xs.iter().map(erase_ty).collect()),
+        DynType::Enum(n, names, vs) => DynType::Enum(
+            n,
+            names,
+            vs.iter()
+                .map(|v| match v {
+                    Variant::Unit => Variant::Unit,
+                    Variant::Newtype(x) => Variant::Newtype(erase_ty(x)),
+                    Variant::Tuple(xs) => Variant::Tuple(xs.iter().map(erase_ty).collect()),
+                    Variant::Struct(f) => Variant::Struct(fields(f)),
+                })
+                .collect(),
+        ),
+        DynType::Bool => DynType::Bool,
+        DynType::Int(w) => DynType::Int(*w),
+        DynType::F32 => DynType::F32,
+        DynType::F64 => DynType::F64,
+        DynType::Char => DynType::Char,
+        DynType::Str => DynType::Str,
+        DynType::Dt(k) => DynType::Dt(*k),
+        DynType::Unit => DynType::Unit,
+        DynType::Value => DynType::Value,
+        DynType::UnitStruct(n) => DynType::UnitStruct(n),
+    }
+}
+
+fn span_str(r: Option<std::ops::Range<usize>>) -> String {
+    match r {
+        Some(r) => format!("{}-{}", r.start, r.end),
+        None => "none".into(),
+    }
+}
+
+/// the document's own spans as a tree: v<span> | L<n>:<span> node*n | T<n>:<span> (K<hexkey>:<span> node)*n
+fn span_item(item: &toml_edit::Item, out: &mut Vec<String>) {
+    match item {
+        toml_edit::Item::None => out.push("vnone".into()),
+        toml_edit::Item::Value(v) => span_value(v, out),
+        toml_edit::Item::Table(t) => {
+            out.push(format!("T{}:{}", t.len(), span_str(t.span())));
+            for (k, v) in t.iter() {
+                out.push(format!("K{}:{}", hex_nodash(k), span_str(t.key(k).and_then(|k| k.span()))));
+                span_item(v, out);
+            }
+        }
+        toml_edit::Item::ArrayOfTables(a) => {
+            out.push(format!("L{}:{}", a.len(), span_str(a.span())));
+            for t in a.iter() {
+                out.push(format!("T{}:{}", t.len(), span_str(t.span())));
+                for (k, v) in t.iter() {
+                    out.push(format!("K{}:{}", hex_nodash(k), span_str(t.key(k).and_then(|k| k.span()))));
+                    span_item(v, out);
+                }
+            }
+        }
+    }
+}
+
+fn span_value(v: &toml_edit::Value, out: &mut Vec<String>) {
+    match v {
+        toml_edit::Value::Array(a) => {
+            out.push(format!("L{}:{}", a.len(), span_str(a.span())));
+            for e in a.iter() {
+                span_value(e, out);
+            }
+        }
+        toml_edit::Value::InlineTable(t) => {
+            out.push(format!("T{}:{}", t.len(), span_str(t.span())));
+            for (k, e) in t.iter() {
+                out.push(format!("K{}:{}", hex_nodash(k), span_str(t.key(k).and_then(|k| k.span()))));
+                span_value(e, out);
+            }
+        }
+        other => out.push(format!("v{}", span_str(other.span()))),
+    }
+}
+
+fn cmd_spanned(args: &Args) -> String {
+    if args.len() < 2 {
+        return "BADCASE args".into();
+    }
+    let ty = match arg_str(&args[0]).and_then(|s| parse_type(s).map_err(|e| format!("BADCASE type {e}"))) {
+        Ok(t) => Rc::new(t),
+        Err(e) => return e,
+    };
+    let doc = match arg_str(&args[1]) {
+        Ok(s) => s,
+        Err(_) => return "BADCASE utf8".into(),
+    };
+    let plain = Rc::new(erase_ty(&ty));
+    let show = |r: Result<DynOwned, String>| match r {
+        Ok(d) => format!("ok:{}", dyn_string(&d.0)),
+        Err(_) => "err".to_string(),
+    };
+    let im = toml_edit::ImDocument::parse(doc.to_string());
+    let mut out = vec![format!("valid={}", im.is_ok() as u8)];
+    out.push(format!("w_t={}", show(with_type(&ty, || decode_doc::<DynOwned>(0, doc)))));
+    out.push(format!("w_e={}", show(with_type(&ty, || decode_doc::<DynOwned>(1, doc)))));
+    out.push(format!("p_t={}", show(with_type(&plain, || decode_doc::<DynOwned>(0, doc)))));
+    out.push(format!("p_e={}", show(with_type(&plain, || decode_doc::<DynOwned>(1, doc)))));
+    // a DocumentMut has no spans: Spanned<..> cannot be delivered through from_document(DocumentMut)
+    out.push(format!("w_edoc={}", show(with_type(&ty, || decode_doc::<DynOwned>(3, doc)))));
+    if let Ok(d) = &im {
+        let mut toks = Vec::new();
+        span_item(d.as_item(), &mut toks);
+        out.push(format!("doc={}", toks.join(",")));
+    }
+    out.join(" ")
+}
+
+/// real `Spanned<T>` fields (the family of harness/src/spanned.rs) against their dynserde twin
+mod spanned_real {
+    use serde::Deserialize;
+    use serde_spanned::Spanned;
+    #[derive(Deserialize, Debug)]
+    pub struct InnerS {
+        pub x: Spanned<i64>,
+        #[serde(default)]
+        pub y: Option<Spanned<String>>,
+    }
+    #[derive(Deserialize, Debug)]
+    pub struct Wrapped {
+        pub a: Spanned<i64>,
+        pub b: Spanned<String>,
+        pub c: Spanned<Vec<Spanned<i64>>>,
+        pub t: Spanned<InnerS>,
+        #[serde(default)]
+        pub u: Vec<Spanned<InnerS>>,
+        #[serde(default)]
+        pub f: Option<Spanned<i64>>,
+    }
+}
+
+fn cmd_spanned_fidelity(args: &Args) -> String {
+    use spanned_real::*;
+    let doc = match args.first().map(|a| arg_str(a)) {
+        Some(Ok(s)) => s,
+        _ => return "BADCASE args".into(),
+    };
+    // the twin: S{a: Y i64, b: Y s, c: Y L Y i64, t: Y S{x: Y i64, y: O Y s}, u: L Y S{..} (default), f: O Y i64}
+    // `#[serde(default)]` on a Vec field is written here as an Option around it (missing => None)
+    let inner = "S2,496e6e657253,78,Y,i64,79,O,Y,s";
+    let tys = format!("S6,57726170706564,61,Y,i64,62,Y,s,63,Y,L,Y,i64,74,Y,{inner},75,O,L,Y,{inner},66,O,Y,i64");
+    let ty = Rc::new(parse_type(&tys).expect("twin type"));
+    let sp = |a: usize, b: usize, v: Dyn| Dyn::Spanned(a, b, Box::new(v));
+    let inner_dyn = |i: &InnerS| {
+        Dyn::Rec(vec![
+            sp(i.x.span().start, i.x.span().end, Dyn::Int(*i.x.get_ref() as i128)),
+            match &i.y {
+                None => Dyn::None,
+                Some(y) => Dyn::Some(Box::new(sp(y.span().start, y.span().end, Dyn::Str(y.get_ref().clone())))),
+            },
+        ])
+    };
+    let to_dyn = |w: &Wrapped, u_present: bool| {
+        Dyn::Rec(vec![
+            sp(w.a.span().start, w.a.span().end, Dyn::Int(*w.a.get_ref() as i128)),
+            sp(w.b.span().start, w.b.span().end, Dyn::Str(w.b.get_ref().clone())),
+            sp(
+                w.c.span().start,
+                w.c.span().end,
+                Dyn::Seq(w.c.get_ref().iter().map(|x| sp(x.span().start, x.span().end, Dyn::Int(*x.get_ref() as i128))).collect()),
+            ),
+            sp(w.t.span().start, w.t.span().end, inner_dyn(w.t.get_ref())),
+            if u_present {
+                Dyn::Some(Box::new(Dyn::Seq(w.u.iter().map(|x| sp(x.span().start, x.span().end, inner_dyn(x.get_ref()))).collect())))
+            } else {
+                Dyn::None
+            },
+            match &w.f {
+                None => Dyn::None,
+                Some(f) => Dyn::Some(Box::new(sp(f.span().start, f.span().end, Dyn::Int(*f.get_ref() as i128)))),
+            },
+        ])
+    };
+    let mut out = Vec::new();
+    for (name, route) in [("t", 0usize), ("e", 1usize)] {
+        let real: Result<Wrapped, String> = decode_doc::<Wrapped>(route, doc);
+        let twin = with_type(&ty, || decode_doc::<DynOwned>(route, doc));
+        let verdict = match (&real, &twin) {
+            (Err(a), Err(b)) => {
+                if a == b {
+                    "same-err".to_string()
+                } else {
+                    format!("DIFF-ERR:{}/{}", hex(a.as_bytes()), hex(b.as_bytes()))
+                }
+            }
+            (Ok(w), Ok(d)) => {
+                let u_present = matches!(&d.0, Dyn::Rec(v) if !matches!(v[4], Dyn::None));
+                let a = dyn_string(&to_dyn(w, u_present));
+                let b = dyn_string(&d.0);
+                if a == b {
+                    "same-ok".to_string()
+                } else {
+                    format!("DIFF:{a}/{b}")
+                }
+            }
+            (Ok(_), Err(b)) => format!("DIFF:real-ok/twin-err:{}", hex(b.as_bytes())),
+            (Err(a), Ok(_)) => format!("DIFF:real-err:{}/twin-ok", hex(a.as_bytes())),
+        };
+        out.push(format!("{name}={verdict}"));
+    }
+    out.join(" ")
+}
+
 fn run_cmd(cmd: &str, args: &Args) -> String {
     match cmd {
         "fidelity" => cmd_fidelity(args),
         "ser" => cmd_ser(args),
         "consts" => cmd_consts(),
+        "spanned" => cmd_spanned(args),
+        "spanned_fidelity" => cmd_spanned_fidelity(args),
         "routes" => cmd_routes(args),
         "routes_ser" => cmd_routes_ser(args),
         "tryfrom" => cmd_tryfrom(args),
